@@ -15,8 +15,8 @@ import (
 // that never approved it must be reported.
 func TestC02(t *testing.T) {
 	rec := core.NewRecorder("C02", env, "cases = flow-profile programs with sanitizer calls (result used / assigned back / dropped) and "+
-		"validator calls in all documented shapes (bool, negated, early return, stored result, error result, other value validated), "+
-		"config lists sanitize1 as sanitizer and validate1/validateE as validators; non-trivial = the program contains a sanitizer or "+
+		"validator calls in all documented shapes (bool, negated, early return, stored result, error result, other value validated, tuple result branched on its last / on a non-last element), "+
+		"config lists sanitize1 as sanitizer and validate1/validateE/validateT as validators; non-trivial = the program contains a sanitizer or "+
 		"validator call and a raw, unapproved source marker reached a sink in some execution; distinct = hash of program + valuations")
 	rec.Assumptions = []string{"approval of any value containing a source's marker cancels the obligation for that source in that execution (conservative)",
 		"markers survive only explicit data operations"}
